@@ -1,8 +1,10 @@
 (* C21 - glob() returns exactly the files its documented semantics select.
    This file holds only the statement, the property theorems and their non-vacuity examples.
    Model: Model/C21.v (`glob`: Globber.Glob/glob/walkDir/shouldExcludeMatch/patternToMatcher/toRegexString of
-   src/fs/glob.go; `glob_spec`: the documented semantics by path segments).  Proofs: Proof/C21.v. *)
-From PlzV Require Import Base.Harness Model.C21 Proof.C21.
+   src/fs/glob.go; `glob_spec`: the documented semantics by path segments).
+   Proofs: Proof/C21.v (matcher, path-string filters, witnesses), Proof/C21_paths.v (Join/Clean/Dir/Base on
+   component lists), Proof/C21_walk.v (the walk), Proof/C21_tree.v (exclude lemma, filter composition, tree level). *)
+From PlzV Require Import Base.Harness Model.C21 Proof.C21 Proof.C21_paths Proof.C21_walk Proof.C21_tree.
 
 Definition C21_statement : Prop :=
   (* for all BUILD file names, package paths, directory trees, include and exclude patterns (`*`, `?`, [class],
@@ -34,18 +36,60 @@ Theorem C21_refuted_other_classes :
   /\ glob_agrees w_bfn [] w7_tree [[Seg [AStar]; DStar]] [] false false = false.
 Proof. exact refuted_others. Qed.
 
-(* What the code does guarantee, for ALL package paths, ALL patterns of the fragment and ALL paths:
-   a pattern without `?` and negated classes next to `**`, without a leading `**` in the root package and without
-   consecutive `**`, whose literals are not '/', and which compiles (filepath.Join, the `**` switch, the six
-   ReplaceAll passes of toRegexString, the parser - all executed by `compiles`) to its token translation,
-   matches exactly the paths the segment-wise reference matches. *)
+(* What the code does guarantee, at the level of the property itself: for ALL BUILD file names, package paths,
+   well-formed trees (a directory of plain, pairwise distinct entry names, regular files and directories only),
+   include and exclude lists and both flags that lie in none of the known defect classes - decided by the
+   executable `defect_class` (Proof/C21_tree.v): a pattern outside the syntactic fragment or one that does not
+   compile to its token translation, an exclude segment that is not a plain name, a package directory named like
+   a BUILD file, a hidden directory with hidden=False, an entry named plz-out other than a top-level directory in
+   the root package, an include pattern that matches a directory of the package - glob terminates normally and
+   returns, as a set, exactly the files the documented semantics select. *)
 Theorem C21_partial :
+  forall bfn pkg tree incs excs hidden syms,
+    inputs_ok pkg tree incs excs = true -> tree_wf tree = true ->
+    defect_class bfn pkg tree incs excs hidden = None ->
+    holds_on bfn pkg tree incs excs hidden syms.
+Proof. exact tree_correct. Qed.
+Print Assumptions C21_partial.
+
+(* Its ingredients, each for ALL inputs.
+   The walk (io/fs.WalkDir + SkipDir protocol, path.Join, filepath.Base/Dir on strings): it records the package
+   directory and paths of entries of the tree, and declares sub-packages, such that after the sub-package filter
+   exactly the entries of the package remain (`ents`: not under the repository's plz-out, not in or at the top of
+   a directory holding a BUILD file). *)
+Theorem C21_partial_walk :
+  forall bfn pkg kids,
+    forallb entry_name_ok pkg = true -> tree_wf (Dir kids) = true ->
+    is_build_file bfn (root_str pkg) = false -> plz_ok (is_nil pkg) (Dir kids) = true ->
+    exists F S,
+      walk_dir bfn (root_str pkg) (Dir kids)
+      = Walked (root_str pkg :: map (path_str pkg) F) [] (map (path_str pkg) S)
+      /\ (forall f, In f F -> f <> [] /\ forallb entry_name_ok f = true)
+      /\ (forall d, In d S -> d <> [] /\ forallb entry_name_ok d = true)
+      /\ (forall f, (In f F /\ under_any S f = false) <-> In f (map fst (ents bfn (is_nil pkg) [] (Dir kids)))).
+Proof. exact walk_characterised. Qed.
+
+(* shouldExcludeMatch (isBathPathOf on filepath.Join(root, excl), the base-name rule for slash-free patterns,
+   patternToMatcher with the switched root) = the reference's `excluded_by`, for every path of entry names. *)
+Theorem C21_partial_exclude :
+  forall pkg f excs,
+    f <> [] -> forallb entry_name_ok pkg = true -> forallb entry_name_ok f = true ->
+    forallb (exc_ok pkg) excs = true -> forallb pat_wf excs = true ->
+    should_exclude (root_str pkg) (path_str pkg f) (map render excs)
+    = Some (existsb (fun e => excluded_by e f) excs).
+Proof. exact should_exclude_spec. Qed.
+
+(* The matcher: a pattern without `?` and negated classes next to `**`, without a leading `**` in the root package
+   and without consecutive `**`, whose literals are not '/', and which compiles (filepath.Join, the `**` switch, the
+   six ReplaceAll passes of toRegexString, the parser - all executed by `compiles`) to its token translation,
+   matches exactly the paths the segment-wise reference matches. *)
+Theorem C21_partial_matcher :
   forall pkg p f,
     fragment pkg p = true -> compiles pkg p = true -> f <> [] -> forallb name_ok f = true ->
     exists ts, pattern_to_matcher (root_str pkg) (render p) = Some ts
                /\ tmatch ts (path_str pkg f) = segs_match p f.
 Proof. exact matcher_correct. Qed.
-Print Assumptions C21_partial.
+Print Assumptions C21_partial_matcher.
 
 (* The two path-string filters of Globber.glob, for ALL paths: the hidden test looks at the last component only
    (nothing else - which is both what it guarantees and the defect), and the sub-package test
@@ -69,10 +113,27 @@ Example C21_refuted_nonvacuous :
   /\ glob_spec w_bfn (s "p") w1_tree [[DStar; Seg txt_pat]] [] false false = [[s "a.txt"]].
 Proof. vm_compute. repeat split. Qed.
 
-(* ... and the hypotheses of the partial theorem hold for real patterns: src/**/*.txt in package third_party/go+x
+(* ... the tree-level theorem applies to a realistic package (BUILD file, nested directories, a hidden file, the
+   repository's plz-out, a sub-package; includes d1/**/*.txt and lib/*.go, excludes *_test.go and d1/d2) with a
+   non-empty result, every refuting witness above lies in a defect class, and of a 72-pattern family 58-64 patterns
+   (depending on tree and package) lie in none ... *)
+Example C21_partial_tree_nonvacuous :
+  inputs_ok [] t8_tree t8_incs t8_excs = true /\ tree_wf t8_tree = true
+  /\ defect_class w_bfn [] t8_tree t8_incs t8_excs false = None
+  /\ glob w_bfn [] t8_tree (map render t8_incs) (map render t8_excs) false false = Some [s "d1/a.txt"; s "lib/a.go"]
+  /\ defect_class w_bfn [s "p"] w1_tree [[DStar; Seg txt_pat]] [] false = Some DHiddenDirectory
+  /\ defect_class w_bfn [s "p"] w3_tree [[Seg [AStar]]] [] false = Some DDirectoryMatched
+  /\ map (fun tree => map (fun pkg => length (filter (in_domain pkg tree) sweep2)) [[]; [s "pkg"]]) [t8_tree; t9_tree]
+     = [[59; 64]; [58; 61]]%nat.
+Proof.
+  destruct tree_domain_witness as (H1 & H2 & H3 & H4 & _). destruct witnesses_classified as (W1 & _ & W3 & _).
+  exact (conj H1 (conj H2 (conj H3 (conj H4 (conj W1 (conj W3 (proj1 tree_domain_sweep))))))).
+Qed.
+
+(* ... and the hypotheses of the matcher theorem hold for real patterns: src/**/*.txt in package third_party/go+x
    is in the fragment, compiles to /(.*/)? , and selects src/a/b/c.txt but not src/a/b/c.go; 526 of the 584 patterns
    of the sweep family are in the fragment and every one of them compiles. *)
-Example C21_partial_nonvacuous :
+Example C21_partial_matcher_nonvacuous :
   let pkg := [s "third_party"; s "go+x"] in
   let p := [Seg (map ALit (s "src")); DStar; Seg txt_pat] in
   forallb (fun pkg => forallb (fun p => implb (fragment pkg p) (compiles pkg p)) sweep_pats)
